@@ -364,7 +364,15 @@ def to_smt2(hyps, neg_goal):
     for h in hyps:
         s.add(h)
     s.add(neg_goal)
-    return s.to_smt2()
+    text = s.to_smt2()
+    # z3's printer may emit a datatype before an uninterpreted sort it mentions under Seq/Array: sorts first
+    lines = text.split("\n")
+    sorts = [l for l in lines if l.startswith("(declare-sort ")]
+    if sorts:
+        rest = [l for l in lines if not l.startswith("(declare-sort ")]
+        k = next((i for i, l in enumerate(rest) if l.startswith("(declare-") or l.startswith("(assert")), len(rest))
+        text = "\n".join(rest[:k] + sorts + rest[k:])
+    return text
 
 
 def open_hyps(hyps, n=[0]):
